@@ -818,7 +818,7 @@ Print Assumptions C15_kt_file_line_free.
    sc_generate (scala.rs overrides generate_types): begin_file - the version block comment `/** .. Generated by typeshare
    <version> .. */` unless no_version_header is set, then `package <parent>` when the package name has a dot (an empty
    package name is an error) -; when there is a type alias or an unsigned integer type is used, the package object
-   (`package object <last> {`, the block of helper aliases UByte .. ULong if needed, the type aliases, `}`); when there is a
+   (`package object <last> {` - <last> is the whole name when it has no dot -, the helper aliases UByte .. ULong if needed, the type aliases, `}`); when there is a
    struct or an enum, the package (`package <last> {`, the structs, the enums, `}`).  generate_types does NOT sort
    topologically here: the output order is [c15_sc_file_items pd] (Spec/C15RenderKtSc.v) - the type aliases, then the
    structs, then the enums, each group in ParsedData order -, and constants are not printed: the first theorem says that
